@@ -293,6 +293,25 @@ def check_compose(case, ctx):
         fails.append(Fail("coupling-rows-missing", feats, {"missing": missing.count(), "expected": exp.count()}))
     if rest.count():
         fails.append(Fail("surplus-rows", feats, {"surplus": rest.count(), "first": (rest.eq + rest.ineq)[:2]}))
+    if fails:
+        return fails
+    # the union is taken of the stages as they are now: a term added to one stage through the stage object after the composite
+    # has been transcribed shows up in the composite objective, by exactly its own value
+    s_last = stages[-1]
+    st_obj = B.stages[s_last["name"]]
+    x_leaf = gen.leaves_of([d for d in s_last["states"] if not d.get("quad")])[0]
+    term = ["*", E.C(0.75), ["at_tf", ["sq", x_leaf]]]
+    B.stage = st_obj
+    st_obj.add_objective(E.to_ca(term, B, st_obj))
+    n2 = NLP(B.ocp)
+    if n2.nx != nC.nx:
+        raise HarnessInconclusive("variable count changed by an objective term")
+    r2 = n2.eval(X[0])
+    data = ref.override_params(obs.unpack(evC[0], s_last["name"]), s_last, s_last["method"]["N"])
+    tr_last = ref.Traj(ref.StageRef(s_last), data, s_last["method"]["M"])
+    want = evC[0]["f"] + float(ref.ev_top(term, tr_last))
+    if not close(r2["f"], want, 1e-9, 1e-9):
+        fails.append(Fail("late-stage-term-not-in-composite", feats, {"composite_after": r2["f"], "composite_before": evC[0]["f"], "expected_after": want}))
     return fails
 
 
